@@ -211,11 +211,38 @@ def _init_worker(modname, tier, seed):
     signal.signal(signal.SIGINT, signal.SIG_IGN)
 
 
+def _raised_in_code_under_test(exc):
+    """True if the exception was raised in (or passed through) a frame of the library under test."""
+    repo = os.path.abspath(os.environ.get('VERIF_REPO', '/repo')) + os.sep
+    tb = exc.__traceback__
+    while tb is not None:
+        if os.path.abspath(tb.tb_frame.f_code.co_filename).startswith(repo):
+            return True
+        tb = tb.tb_next
+    return False
+
+
+def _block_exception_as_violation(block, exc):
+    acc = Acc()
+    lines = traceback.format_exception(type(exc), exc, exc.__traceback__)
+    acc.violation('unexpected-exception:block:%s' % type(exc).__name__, {'__block__': block}, 'no exception', [l.strip() for l in lines[-3:]],
+                  'the code under test raised an exception while a block of cases was being prepared or run (outside any single guarded case)')
+    return acc
+
+
 def _run_block(block):
     try:
         return ('ok', _MOD.run_block(block, _TIER, _SEED))
     except CaseTimeout:
         return ('err', 'unguarded timeout in block %r' % (block,))
+    except HarnessError:
+        return ('err', 'block %r\n%s' % (block, traceback.format_exc()))
+    except Exception as e:
+        # an exception that comes out of the library under test is an observation about it (reported as a violation with the block as
+        # its case); one raised by the harness alone stays a harness error - "never held", but no verdict either
+        if _raised_in_code_under_test(e):
+            return ('ok', _block_exception_as_violation(block, e))
+        return ('err', 'block %r\n%s' % (block, traceback.format_exc()))
     except BaseException:
         return ('err', 'block %r\n%s' % (block, traceback.format_exc()))
 
@@ -273,11 +300,22 @@ def main_check(mod, tier, seed):
     if os.path.exists(evidence_path):
         os.remove(evidence_path)
 
-    blocks = mod.blocks(tier, seed)
-    acc = pmap_blocks(mod.__name__, blocks, tier, seed)
     extra = {}
-    if hasattr(mod, 'finalize'):
-        extra = mod.finalize(acc, tier, seed) or {}
+    blocks = []
+    try:
+        blocks = mod.blocks(tier, seed)
+        acc = pmap_blocks(mod.__name__, blocks, tier, seed)
+        if hasattr(mod, 'finalize'):
+            extra = mod.finalize(acc, tier, seed) or {}
+    except HarnessError:
+        raise
+    except Exception as e:
+        # the library under test raised while the check was laying out its work (building its root objects, say): reported as a
+        # violation for the same reason as in _run_block; an exception of the harness's own making is re-raised (exit 2)
+        if not _raised_in_code_under_test(e):
+            raise
+        acc = _block_exception_as_violation({'phase': 'laying out the blocks / finalising'}, e)
+        acc.caps.append('the enumeration did not run: the library raised while the check was being set up')
 
     known = load_findings(prop)
     new, listed = [], []
@@ -337,7 +375,7 @@ def main_check(mod, tier, seed):
         '%s tier=%s evaluations=%d nontrivial=%d states=%d transitions=%d traces=%d outcomes=%d wall=%.1fs violations=%d known=%d'
         % (prop, tier, acc.evaluations, acc.nontrivial, acc.states, acc.transitions, acc.traces, len(acc.outcomes), time.time() - t0, len(new), len(listed))
     )
-    if acc.evaluations == 0:
+    if acc.evaluations == 0 and not new:
         raise HarnessError('vacuous run: no case executed')
     return 1 if new else 0
 
@@ -346,8 +384,22 @@ def main_replay(mod, path):
     with open(path) as f:
         rec = json.load(f)
     case = rec['case']
-    a = jsonable(mod.run_one(case))
-    b = jsonable(mod.run_one(case))
+    if isinstance(case, dict) and '__block__' in case:
+        # a violation recorded for a whole block (an exception from the library outside any single case): run the block again, twice
+        def once():
+            _init_worker(mod.__name__, rec.get('tier', 'quick'), 0)
+            if 'phase' in case['__block__']:
+                try:
+                    mod.blocks(rec.get('tier', 'quick'), 0)
+                    return []
+                except Exception as e:
+                    return [['unexpected-exception:block:%s' % type(e).__name__, 'raised while the check was being set up']] if _raised_in_code_under_test(e) else []
+            st, r = _run_block(case['__block__'])
+            return [] if st != 'ok' else [[k, v['first']['what']] for k, v in sorted(r.violations.items()) if k.startswith('unexpected-exception:block')]
+        a, b = jsonable(once()), jsonable(once())
+    else:
+        a = jsonable(mod.run_one(case))
+        b = jsonable(mod.run_one(case))
     if a != b:
         print('REPLAY-DIVERGENCE: two runs of the same case differ')
         print(json.dumps(a, default=repr)[:2000])
